@@ -4,8 +4,12 @@ pub struct ChangeHash(pub [u8; 32]);
 #[derive(Clone, Copy)]
 pub enum ChunkType { Document, Change, Compressed, Bundle }
 pub open spec fn ct_u8(ct: ChunkType) -> u8 { match ct { ChunkType::Document => 0, ChunkType::Change => 1, ChunkType::Compressed => 2, ChunkType::Bundle => 3 } }
+impl vstd::std_specs::convert::FromSpecImpl<ChunkType> for u8 {
+    open spec fn obeys_from_spec() -> bool { true }
+    open spec fn from_spec(ct: ChunkType) -> u8 { ct_u8(ct) }
+}
 impl From<ChunkType> for u8 {
-    fn from(ct: ChunkType) -> (r: Self) ensures r == ct_u8(ct) {
+    fn from(ct: ChunkType) -> (r: Self) {
         match ct {
             ChunkType::Document => 0,
             ChunkType::Change => 1,
